@@ -185,7 +185,7 @@ class Cases:
     """Deduplicating collector: one differential case per distinct (pre-state, operation)."""
 
     def __init__(self) -> None:
-        self.by: dict[str, dict[str, fw.Case]] = {'index': {}, 'indexers': {}, 'event': {}}
+        self.by: dict[str, dict[str, fw.Case]] = {'index': {}, 'indexers': {}, 'event': {}, 'rule': {}, 'history': {}}
 
     def add(self, name: str, term: str, data: Any, diag: str) -> None:
         self.by[name].setdefault(term, fw.Case(term, data, diag))
@@ -242,7 +242,7 @@ def level1(ctx: fw.Ctx, C: Cases) -> None:
             level1_sequence(ctx, C, list(ops))
             n += 1
     ctx.count('sequences', 'index-exhaustive', n)
-    for _ in range(ctx.scale(400, 8000)):
+    for _ in range(ctx.scale(300, 8000)):
         ops = []
         for _ in range(r.choice([2, 4, 6, 8, 10, 14])):
             o = r.randrange(len(OBJECTS))
@@ -498,6 +498,8 @@ def level3_history(ctx: fw.Ctx, C: Cases, hcfgs: list[dict], events: list) -> No
         chs = cq.clist(c_hcfg(h, d.default_backoff) for h in hcfgs)
         shared = False
         hist = []
+        cevents: list[str] = []
+        all_ok = True
         for dt, etype, o, matching, script in events:
             d.loop.advance_by(dt)
             now = int(d.loop.time())
@@ -513,9 +515,22 @@ def level3_history(ctx: fw.Ctx, C: Cases, hcfgs: list[dict], events: list) -> No
             exp = c_res(kind, cq.cpair(c_indexers(post_ix), c_mem(post_mem)))
             C.add('event', f'jevent_eqb ({call}) {exp}', data, call)
             ctx.count('event_type', str(etype))
+            cevents.append(f'(jevent {cq.cZ(now)} {cq.cbool(etype == "DELETED")} {cq.cnat(o)} '
+                           f'{cq.clist(cq.cstr(h) for h in matching)} '
+                           f'{cq.clist(cq.cpair(cq.cstr(h), c_action(a)) for h, a in script.items())})')
             if kind != 'ok':
                 ctx.fail('index_resource raised', data, observed=kind, sig='index-raises')
+                all_ok = False
                 break
+            # ---- the model's rule (rule_of) vs the harness's own reading of the documented rule, per index function
+            for h in hcfgs:
+                tag = 2 if etype == 'DELETED' else {'set': 0, 'keep': 1, 'drop': 2, 'absent': 2}[
+                    expected_rule(h, script[h['id']], h['id'] in d.calls, h['id'] in matching)]
+                rcall = (f'jrule_of {cq.cZ(now)} {c_hcfg(h, d.default_backoff)} {c_mem(pre_mem)} {cq.cbool(etype == "DELETED")} '
+                         f'{cmatch} {cscript}')
+                C.add('rule', f'Nat.eqb (rule_tag ({rcall})) {cq.cnat(tag)}',
+                      {**data, 'handler': h['id'], 'expected_rule': ['set', 'keep', 'drop'][tag]}, f'rule_tag ({rcall})')
+                ctx.count('rule_tag', ['set', 'keep', 'drop'][tag])
             # ---- monitor: the documented rules, applied by the harness to its own dictionary
             if etype == 'DELETED':
                 for h in hids:
@@ -539,6 +554,32 @@ def level3_history(ctx: fw.Ctx, C: Cases, hcfgs: list[dict], events: list) -> No
         if shared:
             ctx.nontriv(['L3', hcfgs, hist])
             ctx.sample({'handlers': hcfgs, 'history': hist[:4]}, limit=3)
+        if all_ok:
+            # ---- the whole history through hist_run from the start state, and the reference map rule_hist, vs the end state
+            final_ix = snap_indexers(d.indexers)
+            mems = cq.clist(cq.cpair(cq.cnat(o), c_mem(d.mem_snapshot(o))) for o in range(len(OBJECTS)))
+            objs = cq.clist(cq.cnat(o) for o in range(len(OBJECTS)))
+            ces = cq.clist(cevents)
+            probes = []
+            keys = []
+            for k in KEYPOOL:
+                if k not in keys:
+                    keys.append(k)
+            nprobe = 0
+            for h, (hid, snap) in zip(hcfgs, final_ix):
+                stored = {(o, k): v for k, st in snap['items'] for o, v in st}
+                for o in range(len(OBJECTS)):
+                    for k in keys:
+                        v = stored.get((o, k), ...)
+                        probes.append(cq.cpair(c_hcfg(h, d.default_backoff), cq.cpair(cq.cnat(o), cq.cpair(
+                            c_ikey(k), 'None' if v is ... else f'(Some {cq.cjson(v)})'))))
+                        nprobe += 1
+                        ctx.count('ref_probe', 'absent' if v is ... else 'present')
+            data = {'level': 'history', 'handlers': hcfgs, 'history': list(hist)}
+            term = (f'jhist_check {chs} {ces} {objs} {c_indexers(final_ix)} {mems} '
+                    f'&& jref_check {chs} {ces} {cq.clist(probes)}')
+            C.add('history', term, data, f'jhist_run {chs} (init_indexers {chs}, fun _ => []) {ces}')
+            ctx.count('history_length', str(len(events)))
     finally:
         d.close()
 
@@ -571,12 +612,22 @@ CORPUS3 = [
 ]
 
 
+CORPUS3.append(
+    # Proofs/IndexEvent.v ex_history (C17_history_example), replayed against the real code
+    ([{'id': 'h1', 'errors': None, 'retries': None, 'backoff': None}, {'id': 'h2', 'errors': 'TEMPORARY', 'retries': 2, 'backoff': 4}],
+     [(0, None, 0, ['h1', 'h2'], {'h1': ['res', {'x': 1}], 'h2': ['res', 'v']}),
+      (0, None, 1, ['h1', 'h2'], {'h1': ['res', {'x': 2}], 'h2': ['arb']}),
+      (1, 'MODIFIED', 0, ['h1', 'h2'], {'h1': ['temp', 8], 'h2': ['none']}),
+      (1, 'MODIFIED', 1, ['h1'], {'h1': ['none'], 'h2': ['none']}),
+      (1, 'DELETED', 1, [], {'h1': ['none'], 'h2': ['none']})]))
+
+
 def level3(ctx: fw.Ctx, C: Cases) -> None:
     r = ctx.rng
     for hcfgs, events in CORPUS3:
         level3_history(ctx, C, hcfgs, events)
         ctx.count('sequences', 'event-corpus')
-    for _ in range(ctx.scale(400, 6000)):
+    for _ in range(ctx.scale(300, 6000)):
         hcfgs = gen_hcfgs(r)
         level3_history(ctx, C, hcfgs, gen_history(r, hcfgs))
         ctx.count('sequences', 'event-random')
@@ -605,7 +656,7 @@ def run(ctx: fw.Ctx) -> int:
     level2(ctx, C)
     level3(ctx, C)
     for name, by in C.by.items():
-        ctx.differential(name, HEADER, list(by.values()), shard=150)
+        ctx.differential(name, HEADER, list(by.values()), shard=60 if name == 'history' else 150)
 
     gate.run_gate(ctx)
     return ctx.finish(RULE, level_note=[
